@@ -1,9 +1,51 @@
 import Driver.Util
-open Lean Replicat
+import ReplicatModel.LocalUpload
+open Lean Replicat Replicat.LocalUpload
 namespace Driver.HLocalFS
-/-- requests `localfs.*` -/
+def parseFiles (j : Json) : Except String (List (LocalUpload.Path × Bytes)) := do
+  (← j.getArr?).toList.mapM fun e => do
+    match (← e.getArr?).toList with
+    | [p, d] => pure (← p.getStr?, ← unhex (← d.getStr?))
+    | _ => throw "bad file entry"
+
+def insertSorted (x : String × String) : List (String × String) → List (String × String)
+  | [] => [x]
+  | y :: ys => if x.1 < y.1 then x :: y :: ys else y :: insertSorted x ys
+
+def sortFiles (l : List (LocalUpload.Path × Bytes)) : List (String × String) :=
+  (l.map (fun e => (e.1, hex e.2))).foldl (fun acc x => insertSorted x acc) []
+
+def filesJson (l : List (LocalUpload.Path × Bytes)) : Json :=
+  Json.arr ((sortFiles l).map (fun e => Json.arr #[Json.str e.1, Json.str e.2])).toArray
+
+/-- requests `localfs.*`:
+`localfs.upload` — the file system after the first `k` file-system steps of one upload attempt (`k = null`: all of them;
+`cleanup = true`: the `except` branch ran after those `k` preparation steps), with what `list_files('')` / `exists(name)` /
+`download(name)` then return. -/
 def handleLocalFS (op : String) (j : Json) : Except String Json := do
   match op with
+  | "localfs.upload" =>
+    let files ← parseFiles (← j.getObjVal? "files")
+    let dir ← getStr j "dir"
+    let name ← getStr j "name"
+    let tmp ← getStr j "tmp"
+    let pieces ← (← getArr j "pieces").toList.mapM (fun p => do unhex (← p.getStr?))
+    let cleanup ← (getBool j "cleanup" <|> pure false)
+    let steps := uploadSteps dir name tmp pieces
+    let k : Nat := match j.getObjVal? "k" with
+      | .ok v => (match v.getNat? with | .ok n => n | .error _ => steps.length)
+      | .error _ => steps.length
+    let fs0 : FS := ⟨files, []⟩
+    let fs := if cleanup then LocalUpload.run fs0 (failedAttempt dir tmp pieces k) else LocalUpload.run fs0 (steps.take k)
+    let listing := (LocalUpload.listFiles fs "").foldl (fun acc x => insertSorted (x, "") acc) []
+    pure (Json.mkObj [
+      ("files", filesJson fs.files),
+      ("listing", Json.arr (listing.map (fun e => Json.str e.1)).toArray),
+      ("exists", Json.bool (existsFile fs name)),
+      ("download", match download fs name with | some b => Json.str (hex b) | none => Json.null),
+      ("steps", jnat steps.length),
+      ("tmp_is_tmp", Json.bool (isTmp tmp)),
+      ("name_is_tmp", Json.bool (isTmp name))])
   | _ => throw s!"unknown op {op}"
 
 end Driver.HLocalFS
